@@ -1,6 +1,6 @@
 #!/bin/bash
 # runs every registered check (quick unless TIER=thorough) on the current tree; prints one line per check
-cd /verif
+cd "$(dirname "$0")/.."
 for id in $(python3 -c "import json; print(' '.join(c['property_id'] for c in json.load(open('MANIFEST.json'))['checks']))"); do
   t0=$(date +%s.%N)
   out=$(VERIF_SEED=${VERIF_SEED:-0} timeout ${TIMEOUT:-1800} ./check.sh $id ${TIER:-quick} 2>&1); code=$?
